@@ -12,6 +12,8 @@
 #include <boost/gil/extension/dynamic_image/dynamic_image_all.hpp>
 #include <boost/gil/pixel_numeric_operations.hpp>
 
+#include <type_traits>
+
 namespace boost { namespace gil {
 
 // Nearest-neighbor and bilinear image samplers.
@@ -52,8 +54,18 @@ struct cast_channel_fn {
     template <typename SrcChannel, typename DstChannel>
     void operator()(const SrcChannel& src, DstChannel& dst) {
         using dst_value_t = typename channel_traits<DstChannel>::value_type;
-        dst = dst_value_t(src);
+        dst = cast<dst_value_t>(src, std::integral_constant<bool,
+            std::is_floating_point<SrcChannel>::value && std::is_integral<dst_value_t>::value>());
     }
+private:
+    // floating point to integral: round to nearest, so that rounding noise in the interpolation
+    // weights cannot turn e.g. 200.99999999999997 into 200
+    template <typename DstValue, typename SrcChannel>
+    static DstValue cast(const SrcChannel& src, std::true_type) {
+        return DstValue(src < 0 ? src - SrcChannel(0.5) : src + SrcChannel(0.5));
+    }
+    template <typename DstValue, typename SrcChannel>
+    static DstValue cast(const SrcChannel& src, std::false_type) { return DstValue(src); }
 };
 
 template <typename SrcPixel, typename DstPixel>
